@@ -354,7 +354,7 @@ def run(ctx):
         explore.fold_stats(ctx, st, prefix="threads_")
         ctx.log(f"threads {cfg}: {st['executions']} schedules, bound {st['completed_bound']}, "
                 f"{len(st['end'])} distinct schedules, {len(st['obs'])} distinct outcomes")
-        if len(st["end"]) < 2:
+        if len(st["end"]) < 2 and not st["stopped_on_violation"]:
             raise core.HarnessError("thread exploration produced a single schedule - vacuous")
     ctx.set("thread_schedules", total)
     ctx.set("thread_preemption_bound", bound)
